@@ -79,6 +79,9 @@ def run_reader(chunks, line_limit=None):
     if line_limit:
         sys.settrace(tr)
     died = None
+    from props.c04 import WallGuard
+    guard = WallGuard(6.0)       # a decoder that loops inside one frame is not seen by the line count of the reader
+    guard.__enter__()
     try:
         conn.work_read_queue(_thread=Stub())
     except Done:
@@ -87,7 +90,12 @@ def run_reader(chunks, line_limit=None):
         spun = True
     except Exception as e:   # noqa -- the reader thread would have died here
         died = type(e).__name__
+    except BaseException as e:   # noqa
+        if type(e).__name__ != "Spin":
+            raise
+        spun = True
     finally:
+        guard.__exit__()
         if line_limit:
             sys.settrace(None)
     if died:
@@ -114,7 +122,11 @@ def undecodable(rng, kind=0):
     def avp(code, payload, flags=0x40):
         n = 8 + len(payload)
         return code.to_bytes(4, "big") + bytes([flags]) + n.to_bytes(3, "big") + payload + bytes((-n) % 4)
-    if kind == 0:
+    if kind >= 3:
+        # an AVP header whose length field is smaller than the header itself (0, 1, 7), followed by more bytes
+        lf = {3: 0, 4: 1, 5: 7}[kind]
+        body, cmd = (263).to_bytes(4, "big") + bytes([0x40]) + lf.to_bytes(3, "big") + bytes(8), 272
+    elif kind == 0:
         body, cmd = bytes.fromhex("000001074000"), 272
     elif kind == 1:
         body, cmd = avp(260, bytes.fromhex("0000010a400000" "0c00")), 257
@@ -149,15 +161,30 @@ def check(run):
     for code, vendor, tn, m, name, vf in rows:
         rows_by_ty.setdefault(tn, []).append((code, vendor))
     good = frames_corpus(rng, rows_by_ty)
-    bads = [undecodable(rng, k) for k in range(3)]
+    bads = [undecodable(rng, k) for k in range(6)]
     bad = bads[0]
     cases, meta = [], []
 
+    hung = set()
+    spins = [0]
+
     def decodes(fr):
+        # guarded: a decoder that does not come back must become a finding, not a hanging check
+        from props.c04 import WallGuard
+        if fr in hung:
+            return False
         try:
-            Message.from_bytes(fr)
+            with WallGuard(3.0):
+                Message.from_bytes(fr)
             return True
         except Exception:   # noqa
+            return False
+        except BaseException as e:   # noqa
+            if type(e).__name__ != "Spin":
+                raise
+            hung.add(fr)
+            run.violation("no-spin", {"frame": fr.hex()[:200], "len": len(fr)}, "Message.from_bytes did not return within 3 s",
+                          what="decoding one frame's body never terminates: the reader spins without consuming input")
             return False
 
     def one(stream_frames, chunks, kind, pauses=True):
@@ -165,10 +192,13 @@ def check(run):
         if pauses and len(chunks) > 1 and (kind == "k-cut" or (kind == "1-cut" and len(chunks[0]) % 3 == 0)):
             # the same reads with a silence (the reader's 5 s queue wait times out) before, between and after them
             one(stream_frames, [x for c in chunks for x in (None, c)] + [None], kind + "+pauses", pauses=False)
+        if spins[0] >= 3:
+            return            # three spinning inputs are on record: every further one costs seconds and adds nothing
         stream = b"".join(f for f, _ in stream_frames)
         case = {"frames": [(len(f), r) for f, r in stream_frames], "chunks": [(-1 if c is None else len(c)) for c in chunks], "kind": kind,
                 "stream": stream.hex()[:300]}
         dl, closed, left, spun = run_reader(chunks, line_limit=60 * len(stream) + 3000)
+        spins[0] += 1 if spun else 0
         got = [m.as_bytes() if False else None for m in dl]
         run.count(1, [(stream[:80], tuple(-1 if c is None else len(c) for c in chunks))] if len(chunks) > 1 else [])
         # oracle -----------------------------------------------------------------
@@ -208,8 +238,10 @@ def check(run):
                 sf.append((rng.choice(pool), "good"))
         if si == 1:
             sf = [(bad, "bad"), (short[0], "good")]      # the seed-corpus history
-        if si in (2, 3):
+        if si in (2, 3, 4, 5, 6):
             sf = [(short[0], "good"), (bads[si - 1], "bad"), (short[1 % len(short)], "good")]
+        # frames the library's decoder accepts after all (it is lenient about some malformed bodies) count as good ones
+        sf = [(f, "good" if r == "bad" and decodes(f) else r) for f, r in sf]
         # unique hop-by-hop ids so that delivery order is observable
         sf = [(f[:12] + (1000 + i).to_bytes(4, "big") + f[16:], r) for i, (f, r) in enumerate(sf)]
         stream = b"".join(f for f, _ in sf)
@@ -265,7 +297,66 @@ def check(run):
         run.mismatch("reader model vs work_read_queue", meta[i], texts[i][-300:])
     for e in errs:
         run.mismatch("coq evaluation", {}, e)
+    node_level(run, thorough)
     return run.finish()
+
+
+def node_level(run, thorough):
+    """The same claim seen from the socket: a running node (virtual sockets, virtual time) is fed a stream of watchdog
+    requests cut into network reads at chosen offsets — around the node's recv size (2048) in particular — in both ready
+    sub-states; every request must be answered, once, in order."""
+    import nodesim as NS
+    from vsim import Sim
+    K = 40
+    probe = NS.build_message(dict(kind="dwr", host="cli0.example.net", hbh=1, e2e=1))
+    L = len(probe)
+    cutsets = [[], [2047], [2048], [2049], [4096], [2048, 4096], [L], [L - 1], [L + 1], [20], [19], [K * L - 1],
+               [2048 + 1, 2048 + 2]] + ([[c] for c in range(2040, 2056)] if thorough else [])
+    for waiting_dwa in (False, True):
+        for cuts in cutsets:
+            sim = Sim(seed=1, t0=NS.T0)
+            try:
+                sim.script_random([77, 12345])
+                node = sim.node_mod.Node("srv.example.net", "example.net", ip_addresses=["10.0.0.1"], tcp_port=3868)
+                node.idle_timeout = 5
+                node.dwa_timeout = 50
+                app = sim.app_mod.SimpleThreadingApplication(4, is_auth_application=True, request_handler=lambda a, m: None)
+                node.add_application(app, [node.add_peer("aaa://cli0.example.net", "example.net")])
+                node.start()
+                sim.run()
+                sim.script_random([1000])
+                r = sim.connect_in()
+                sim.run()
+                r.feed(NS.build_message(dict(kind="cer", host="cli0.example.net", hbh=1, e2e=1)))
+                sim.run()
+                r.take_messages()
+                frames = [NS.build_message(dict(kind="dwr", host="cli0.example.net", hbh=100 + i, e2e=500 + i)) for i in range(K)]
+                if waiting_dwa:
+                    sim.advance(7)          # the node's own DWR goes out: READY_WAITING_DWA
+                    own = [m for m in r.take_messages() if m.header.is_request and m.header.command_code == 280]
+                    if own:
+                        frames.insert(3, NS.build_message(dict(kind="dwa", host="cli0.example.net", hbh=own[0].header.hop_by_hop_identifier,
+                                                               e2e=own[0].header.end_to_end_identifier)))
+                stream = b"".join(frames)
+                pos = 0
+                for c in sorted(set(x for x in cuts if 0 < x < len(stream))) + [len(stream)]:
+                    r.feed(stream[pos:c])
+                    pos = c
+                    sim.run()
+                sim.advance(1)
+                got = [m.header.hop_by_hop_identifier for m in r.take_messages() if not m.header.is_request and m.header.command_code == 280]
+                conn = next(iter(node.connections.values()), None)
+                case = {"scenario": "node-level stream of %d DWRs" % K, "cuts": cuts, "awaiting_dwa": waiting_dwa, "frame_len": L}
+                run.count(1, [("node-stream", tuple(cuts), waiting_dwa)])
+                want = [100 + i for i in range(K)]
+                if got != want or sim.thread_deaths or conn is None or (waiting_dwa and conn.state != sim.peer_mod.PEER_READY):
+                    run.violation("chunking-invariance", case,
+                                  {"answered": got[:60], "deaths": [str(d)[:80] for d in sim.thread_deaths],
+                                   "state": None if conn is None else hex(conn.state)},
+                                  {"answered": "hop-by-hop 100..%d, once each, in order" % (99 + K)},
+                                  what="a stream of requests cut into network reads was not delivered and answered message by message")
+            finally:
+                sim.shutdown()
 
 
 def replay(r):
